@@ -1,6 +1,8 @@
 package main
 
 import (
+	"math"
+	"encoding/json"
 	"fmt"
 	"math/rand"
 	"os"
@@ -88,6 +90,15 @@ func (c18) RaceCase(c Case) bool { return len(c.Ops) == 1 && c.Ops[0][0] == "fre
 
 func (c18) Gen(rng *rand.Rand, tier string, idx int) Case {
 	var c Case
+	if idx%13 == 7 {
+		// rows whose values have unusual Go types ([]byte, typed nil pointers, Stringers, NaN, structs, typed containers …)
+		// as key / sort column and as measured value, between ordinary rows
+		k := idx / 13
+		kind := c18ExoticKinds[k%len(c18ExoticKinds)]
+		c.Ops = [][]string{{"exotic", kind, strconv.Itoa(k/len(c18ExoticKinds)*5 + rng.Intn(5))}}
+		c.Stat = append(c.Stat, "exotic-row-values", "exotic-"+kind)
+		return c
+	}
 	if idx%97 == 5 {
 		// Execute that fails AFTER the stream was built (the WHERE text passes the SQL parser but does not compile as a
 		// filter): whatever Execute started must be torn down by the Stop that follows
@@ -574,6 +585,144 @@ func c18free(c Case, kind string, n int, base0 int) ([][]string, string) {
 	return out, why
 }
 
+// ---------------------------------------------------------------- exotic row values
+
+// c18Stringer: a value-receiver Stringer; a typed nil pointer to it panics when its method is called through the pointer
+type c18Stringer struct{ s string }
+
+func (x c18Stringer) String() string { return x.s }
+
+var c18ExoticSQL = map[string]string{
+	"direct":  "SELECT id, k, v + 1 AS w FROM stream WHERE id >= 0",
+	"join":    "SELECT id, m.loc AS loc FROM stream s LEFT JOIN meta m ON s.k = m.k",
+	"orderby": "SELECT k, COUNT(*) AS c, MAX(id) AS id FROM stream GROUP BY k, CountingWindow(1) ORDER BY k",
+	"batch":   "SELECT k, COUNT(*) AS c, MAX(id) AS id FROM stream GROUP BY k, TumblingWindow('30ms') ORDER BY k DESC",
+	"cep":     "SELECT * FROM stream MATCH_RECOGNIZE (ORDER BY ts MEASURES LAST(id) AS id, MIN(w) AS mn, MAX(w) AS mx, AVG(w) AS av PATTERN (A+ B) DEFINE A AS v > 0, B AS v <= 0)",
+	"cepopen": "SELECT * FROM stream MATCH_RECOGNIZE (ORDER BY ts MEASURES LAST(id) AS id, MIN(w) AS mn, MAX(w) AS mx PATTERN (A+) DEFINE A AS v > 0)",
+	"groupfn": "SELECT upper(k) AS uk, COUNT(*) AS c, MAX(id) AS id FROM stream GROUP BY upper(k), CountingWindow(1)",
+}
+
+var c18ExoticKinds = []string{"direct", "join", "orderby", "batch", "cep", "cepopen", "groupfn"}
+
+// c18ExoticValues: what a producer may legitimately put into a row map besides JSON-like values
+func c18ExoticValues() []interface{} {
+	var np *c18Stringer
+	var nt *time.Time
+	f32 := float32(0.1)
+	return []interface{}{[]byte("ab"), []byte("ab"), np, nt, c18Stringer{"x"}, &c18Stringer{"y"}, time.Unix(1700000000, 0), "21.5°C", "",
+		math.NaN(), math.Inf(1), uint64(1) << 63, &f32, struct{ A int }{1}, []int{1, 2}, map[string]int{"a": 1}, json.Number("7"), complex(1, 2)}
+}
+
+// c18exotic: one query, ordinary rows, rows carrying an exotic value in k / v / w, ordinary rows again, Stop.
+func c18exotic(kind string, pick int) [][]string {
+	var mu sync.Mutex
+	var log [][]string
+	add := func(l ...string) { mu.Lock(); log = append(log, l); mu.Unlock() }
+	guard := func(name string, f func()) {
+		defer func() {
+			if x := recover(); x != nil {
+				add("panicked", name)
+			}
+		}()
+		f()
+	}
+	base := runtime.NumGoroutine()
+	ssql := streamsql.New(streamsql.WithDiscardLog())
+	if err := ssql.Execute(c18ExoticSQL[kind]); err != nil {
+		return [][]string{{"execute-error", hx(err.Error())}}
+	}
+	if kind == "join" {
+		if _, err := ssql.RegisterTable("meta", nil); err != nil {
+			return [][]string{{"register-error"}}
+		}
+		ssql.UpsertTable("meta", map[string]interface{}{"k": "a", "loc": "A"})
+	}
+	var seen sync.Map
+	ssql.AddSyncSink(func(res []map[string]interface{}) {
+		for _, r := range res {
+			seen.Store(fmt.Sprint(r["id"]), true)
+		}
+	})
+	ts := int64(0)
+	row := func(id int, k, v, w interface{}) map[string]interface{} {
+		ts++
+		return map[string]interface{}{"id": id, "k": k, "v": v, "w": w, "ts": ts}
+	}
+	emit := func(r map[string]interface{}) { guard("emit", func() { ssql.Emit(r) }) }
+	// ordinary rows (v: 1, 1, 0 closes a CEP match)
+	emit(row(1, "a", 1, 1.5))
+	emit(row(2, "a", 1, 2.5))
+	emit(row(3, "a", 0, 0.5))
+	vals := c18ExoticValues()
+	x := vals[pick%len(vals)]
+	y := vals[(pick/len(vals)+pick)%len(vals)]
+	// the exotic value as the key / sort column (twice: a comparison of two such values), then as a measured value
+	emit(row(4, x, 1, 1.0))
+	emit(row(5, x, 1, 1.0))
+	emit(row(6, "a", 1, y))
+	emit(row(7, "a", 1, y))
+	emit(row(8, "a", 0, y))
+	if kind == "join" {
+		// a table write after the exotic lookups must return
+		done := make(chan struct{})
+		go func() {
+			guard("upsert", func() { ssql.UpsertTable("meta", map[string]interface{}{"k": "b", "loc": "B"}) })
+			close(done)
+		}()
+		select {
+		case <-done:
+		case <-time.After(3 * time.Second):
+			add("table-write-blocked")
+		}
+	}
+	// ordinary rows again: they must be processed
+	emit(row(101, "a", 1, 1.5))
+	emit(row(102, "a", 1, 2.5))
+	emit(row(103, "a", 0, 0.5))
+	want := map[string][]string{"direct": {"101", "102", "103"}, "join": {"101", "102", "103"}, "orderby": {"101", "102", "103"},
+		"batch": {"103"}, "cep": {"103"}, "groupfn": {"101", "102", "103"}}[kind]
+	deadline := time.Now().Add(3 * time.Second)
+	missing := func() bool {
+		for _, id := range want {
+			if _, ok := seen.Load(id); !ok {
+				return true
+			}
+		}
+		return false
+	}
+	for missing() && time.Now().Before(deadline) {
+		time.Sleep(2 * time.Millisecond)
+	}
+	if missing() {
+		add("later-rows-lost", kind)
+	}
+	if kind == "cepopen" {
+		// an open match over exotic measured values is flushed by Stop
+		emit(row(201, "a", 1, y))
+		emit(row(202, "a", 1, y))
+	}
+	stopped := make(chan struct{})
+	go func() { guard("stop", func() { ssql.Stop() }); close(stopped) }()
+	select {
+	case <-stopped:
+	case <-time.After(20 * time.Second):
+		add("stuck", "stop-never-returned")
+		mu.Lock()
+		defer mu.Unlock()
+		return append([][]string{}, log...)
+	}
+	dl := time.Now().Add(2 * time.Second)
+	for runtime.NumGoroutine() > base && time.Now().Before(dl) {
+		time.Sleep(time.Millisecond)
+	}
+	if n := runtime.NumGoroutine() - base; n > 0 {
+		add("goroutines-left", strconv.Itoa(n))
+	}
+	mu.Lock()
+	defer mu.Unlock()
+	return append([][]string{{"exotic-done", kind}}, log...)
+}
+
 // c18failExec: Execute returns an error; Stop must leave no goroutine of the half-built instance behind.
 func c18failExec(c Case) [][]string {
 	where := "a >"
@@ -598,6 +747,14 @@ func c18failExec(c Case) [][]string {
 func (c18) Exec(c Case) [][][]string {
 	if len(c.Ops) == 1 && c.Ops[0][0] == "failexec" {
 		return [][][]string{c18failExec(c)}
+	}
+	if len(c.Ops) > 0 && c.Ops[0][0] == "exotic" {
+		var out [][][]string
+		for _, op := range c.Ops {
+			pick, _ := strconv.Atoi(op[2])
+			out = append(out, c18exotic(op[1], pick))
+		}
+		return out
 	}
 	if len(c.Ops) == 1 && len(c.Ops[0]) == 3 && c.Ops[0][0] == "free" {
 		n, _ := strconv.Atoi(c.Ops[0][2])
